@@ -185,10 +185,22 @@ fn check_items(ctx: &mut Ctx, prop: &str, route: &str, items: &[Item], capped: b
                     for (ri, part) in g.parts.iter().enumerate() {
                         let Some(exact) = exact_area(&part.pts) else { continue };
                         let naive: f64 = part.pts.windows(2).map(|w| (f64::from_bits(w[1][0]) - f64::from_bits(w[0][0])) * (f64::from_bits(w[1][1]) + f64::from_bits(w[0][1]))).sum();
-                        if exact == 0 || naive == 0.0 || naive.is_nan() || (naive < 0.0) != (exact < 0) {
+                        if exact == 0 {
                             continue;
                         }
                         let want = if exact < 0 { 1 } else { 0 };
+                        // the double-precision evaluation of the area - the sum, then its half, as the
+                        // library computes it - rounds to zero, to NaN or to the other sign
+                        let half = naive / 2.0;
+                        if half == 0.0 || half.is_nan() || (half < 0.0) != (exact < 0) {
+                            // the open known finding of C01 (roles lost to rounding), seen from a
+                            // foreign file: reported as its own class under C03, not judged elsewhere
+                            if part.kind != want && prop == "C03" {
+                                ctx.fail(prop, "ring-role-rounding", "float-area", format!("{}: record {} ring {}: twice the exact signed area is {} units but its double-precision evaluation gives {:e} (halved: {:e}); the ring was returned as {}", route, i, ri, exact, naive, half, if part.kind == 1 { "inner" } else { "outer" }));
+                                return;
+                            }
+                            continue;
+                        }
                         if part.kind != want {
                             ctx.fail(prop, "ring-role", format!("{}:{}", route, site), format!("{}: record {} ring {}: twice the exact signed area is {} units, the ring was returned as {}", route, i, ri, exact, if part.kind == 1 { "inner" } else { "outer" }));
                             return;
